@@ -161,7 +161,7 @@ fn outcome_sx(o: Outcome) -> Sx {
 }
 
 pub fn run(req: &Sx) -> (Sx, Sx) {
-    if req.head() == "rewrite" {
+    if req.head() == "rewrite" || req.head() == "split" {
         // (rewrite id p files values p' files' script): compile both programs
         let a = compile_files(&files_at(req, 3), &[], &[], None);
         let b = compile_files(&files_at(req, 6), &[], &[], None);
